@@ -1509,7 +1509,8 @@ class sptensor:
             raise ValueError(
                 "Cannot call nvecs on sptensor with only singleton dimensions"
             )
-        tnt = mutatable_sptensor.spmatrix().transpose()
+        # The Gram matrix is formed in double precision whatever the stored type
+        tnt = mutatable_sptensor.spmatrix().transpose().astype(float)
         y = tnt.transpose().dot(tnt)
         if r < y.shape[0] - 1:
             # y is symmetric: use the symmetric solver (real output) and sort the
